@@ -35,8 +35,14 @@ def merge_shape(r, L):
                (r[1] - L) == NODES.empty(), (r[2] & L) == NODES.empty())
 
 
+def new_nodes_are_in_memory(r, names):
+    """what we add to the disk list is named in self._names (the in-memory list)"""
+    return Implies(In(N0(), r[2]), In(N0()[0], names))
+
+
 DIFF = verified(("RepositoryPackCollection", "_diff_pack_names"), result=Tup(NODES, NODES, NODES, NODES),
-                ensures=lambda c: And(merge_shape(c.result, c.self._packs_at_load), disk_set_is_image(c, c.result[3])),
+                ensures=lambda c: And(merge_shape(c.result, c.self._packs_at_load), disk_set_is_image(c, c.result[3]),
+                                      new_nodes_are_in_memory(c.result, c.self._names)),
                 raises={"Exception": None})
 
 target(P + "_diff_pack_names", modifies=[],
@@ -48,7 +54,8 @@ target(P + "_diff_pack_names", modifies=[],
                       inv=lambda c: And(Implies(In(N0(), c.current_nodes), In(N0()[0], c.done)),
                                         Implies(In(M0(), c.done), exists([BYTES], lambda v: In(NODE.mk(M0(), v), c.current_nodes)))))},
        ensures={
-           "caller_contract": lambda c: And(merge_shape(c.result, c.old.self._packs_at_load), disk_set_is_image(c, c.result[3])),
+           "caller_contract": lambda c: And(merge_shape(c.result, c.old.self._packs_at_load), disk_set_is_image(c, c.result[3]),
+                                            new_nodes_are_in_memory(c.result, c.old.self._names)),
            # the statement's sentence: with D on disk now, L loaded at lock time, C in memory
            "three_way_merge": lambda c: And(c.result[0] == ((c.result[3] - (c.old.self._packs_at_load - c.current_nodes))
                                                             | (c.current_nodes - c.old.self._packs_at_load)),
